@@ -17,7 +17,7 @@ HOME, XDG_CONFIG_HOME, PYTHONUSERBASE point into the sandbox as well.
 
 Tasks:
   {'op':'tables'}                       class tables by introspection (for case GENERATION only)
-  {'op':'resolve', 'ep':..., 'files':{role: json}, 'pre':[argv before subcommand], 'argv':[...]}
+  {'op':'resolve', 'ep':..., 'files':{role: json}, 'pre':[argv before subcommand], 'argv':[...], 'cwd_at': role?}
         -> {'cfg': build_config(ep), 'cfg_none': build_config(ep, True), 'ns': parser namespace, 'ignore': mapping
             handed to set_notebook_diff_ignores, 'order': roles in the order nbdime searches them}
 """
@@ -31,8 +31,10 @@ START_CWD = os.getcwd()
 
 
 _SB = {}
-def sandbox(root, files):
-    """One sandbox per interpreter (directories are created once); per task only the nbdime_config.json files change."""
+def sandbox(root, files, cwd_at=None):
+    """One sandbox per interpreter (directories are created once); per task only the nbdime_config.json files change.
+    cwd_at: the role of the Jupyter configuration directory the program is started FROM (working directory == that
+    directory, e.g. nbdiff run inside ~/.jupyter or /etc/jupyter); default: the separate 'cwd' directory."""
     if 'dirs' not in _SB:
         base = tempfile.mkdtemp(prefix='nbv_c19_')
         dirs = {}
@@ -59,13 +61,13 @@ def sandbox(root, files):
     import jupyter_core.paths as P
     P.SYSTEM_CONFIG_PATH = [dirs['system']]
     P.ENV_CONFIG_PATH = [dirs['env']]
-    os.chdir(dirs['cwd'])
+    os.chdir(dirs[cwd_at] if cwd_at in ROLES else dirs['cwd'])
     return dirs
 
 
 def canon_value(v, dirs):
     """the default of `workdirectory` is 'the cwd at program start' -- rendered symbolically"""
-    if isinstance(v, str) and v in (START_CWD, dirs['cwd'], os.path.realpath(START_CWD)): return '<cwd>'
+    if isinstance(v, str) and v in (START_CWD, dirs['cwd'], os.path.realpath(START_CWD), dirs.get('<now>')): return '<cwd>'
     return v
 
 
@@ -81,7 +83,8 @@ def guarded(f):
 def resolve(task):
     import nbdime.config as C
     try:
-        dirs = sandbox(None, task.get('files', {}))
+        dirs = dict(sandbox(None, task.get('files', {}), task.get('cwd_at')))
+        dirs['<now>'] = os.getcwd()
         ep = task['ep']
         out = {}
         from jupyter_core.paths import jupyter_config_path
